@@ -9,9 +9,9 @@ use compute::linalg::{
 
 // ---------------------------------------------------------------------------------------------
 // matrix classes of the property text
-pub const CLASSES: [&str; 11] = [
+pub const CLASSES: [&str; 12] = [
     "dense", "integer-known", "spd", "sym-indef-posdiag", "diag-dominant", "perm-scaled-triangular", "graded", "tiny-scale-posdiag", "sym-dd-posdiag",
-    "sym-int-posdiag", "near-singular",
+    "sym-int-posdiag", "near-singular", "sparse-graded",
 ];
 
 fn pow2(k: i64) -> f64 { (2.0f64).powi(k as i32) }
@@ -56,6 +56,21 @@ pub fn gen_matrix(r: &mut Rng, c: &str, n: usize) -> Vec<f64> {
                 let w: Vec<f64> = (0..n - 1).map(|_| r.uniform(-2.0, 2.0)).collect();
                 for j in 0..n { let mut sum = 0.0; for i in 0..n - 1 { sum += w[i] * a[i * n + j]; } a[(n - 1) * n + j] = sum + delta * a[(n - 1) * n + j]; }
             }
+        }
+        "sparse-graded" => {
+            // rows of very different scale (1 .. 1e-12) with many exact zeros and a few weak couplings: the pivot order is decided by entries of
+            // very different magnitude, and a row that has been swapped must keep being compared by its own entries
+            for i in 0..n {
+                let sc = (10.0f64).powf(-r.uniform(0.0, 12.0)) * if r.coin(0.5) { 1.0 } else { 0.0 + 1.0 };
+                for j in 0..n {
+                    let v = if i == j { r.uniform(0.5, 2.0) } else if r.coin(0.55) { 0.0 } else if r.coin(0.3) { r.uniform(-1.0, 1.0) * 1e-7 } else { r.uniform(-2.0, 2.0) };
+                    a[i * n + j] = sc * v;
+                }
+            }
+            // a random row permutation so that the diagonal is not the natural pivot
+            let mut p: Vec<usize> = (0..n).collect();
+            for i in (1..n).rev() { let j = r.below(i as u64 + 1) as usize; p.swap(i, j); }
+            let b0 = a.clone(); for i in 0..n { for j in 0..n { a[p[i] * n + j] = b0[i * n + j]; } }
         }
         "sym-int-posdiag" => {
             // symmetric small-integer entries with many zeros and a positive diagonal: the Cholesky sweep meets pivots that cancel EXACTLY to
@@ -112,7 +127,7 @@ pub fn gen_matrix(r: &mut Rng, c: &str, n: usize) -> Vec<f64> {
 
 pub fn gen_rhs(r: &mut Rng, c: &str, a: &[f64], n: usize, k: usize) -> Vec<f64> {
     // row-major n x k
-    if c == "integer-known" || c == "near-singular" {
+    if c == "integer-known" || c == "near-singular" || c == "sparse-graded" {
         let x: Vec<f64> = if c == "integer-known" { (0..n * k).map(|_| r.small_int(5)).collect() } else { (0..n * k).map(|_| r.uniform(-4.0, 4.0)).collect() };
         let mut b = vec![0.0; n * k];
         for i in 0..n { for j in 0..k { let mut s = 0.0; for l in 0..n { s += a[i * n + l] * x[l * k + j]; } b[i * k + j] = s; } }
@@ -266,7 +281,7 @@ pub fn gen(tier: &str, seed: u64, outdir: &str) {
         }
     }
     cs.write(outdir, if thorough { 60 } else { 150 },
-             "eleven matrix classes (ill-conditioned with b = A.x; random dense, integer with known solution, SPD, symmetric indefinite with positive diagonal, symmetric small-integer with positive diagonal (exact zero pivots), symmetric diagonally dominant, diagonally dominant, permuted/scaled triangular, graded over ten decades, tiny-scale non-symmetric with positive diagonal) x every order 1..12 (quick) / 1..32 (thorough) x 1..6 right-hand sides through all six entry points (solve, solve_sys, invert_matrix, Matrix::solve for Vector and Matrix, Matrix::inv) and the two routing predicates; predicate-boundary matrices (asymmetry at the tolerance, zero/negative/NaN diagonal), singular matrices, every small layout conversion, and a malformed stream of arbitrary lengths/shapes; non-trivial = order >= 2 (value cases), a panic (malformed stream); distinct by hash of the case term");
+             "twelve matrix classes (sparse row-graded with weak couplings; ill-conditioned with b = A.x; random dense, integer with known solution, SPD, symmetric indefinite with positive diagonal, symmetric small-integer with positive diagonal (exact zero pivots), symmetric diagonally dominant, diagonally dominant, permuted/scaled triangular, graded over ten decades, tiny-scale non-symmetric with positive diagonal) x every order 1..12 (quick) / 1..32 (thorough) x 1..6 right-hand sides through all six entry points (solve, solve_sys, invert_matrix, Matrix::solve for Vector and Matrix, Matrix::inv) and the two routing predicates; predicate-boundary matrices (asymmetry at the tolerance, zero/negative/NaN diagonal), singular matrices, every small layout conversion, and a malformed stream of arbitrary lengths/shapes; non-trivial = order >= 2 (value cases), a panic (malformed stream); distinct by hash of the case term");
 }
 
 // ---------------------------------------------------------------------------------------------
